@@ -2,6 +2,7 @@
    Same model and quantification as C42 (C42/Model.v, all legitimate fault schedules of any length). *)
 From Coq Require Import ZArith List Bool.
 From GV Require Import C42.Model C42.Lemmas C42.InvP C42.InvC C42.Proofs.
+From GV Require C42.Examples.
 Import ListNotations.
 Open Scope Z_scope.
 
